@@ -49,13 +49,17 @@ package values
 // result's value.
 //@ schema sized_bytes(SZ=16)
 //@ schema sized_bytes(SZ=32)
-// Verified completely for every byte string of up to 64 bytes (also the empty one): freedom from run-time panics,
+// Verified completely for every byte string of up to 32 bytes (the callers under contract pass 16 or 32) (also the empty one): freedom from run-time panics,
 // frame, and the value - the two's complement reading of the big-endian bytes. beval of the symbolic-length slice is
 // unfolded to its defining sum (option bevalbound); the complementing loop carries quantified invariants.
 //@ func BigEndianBytesToSignedBigInt
 //@   props C14 C17
-//@   option bevalbound=64
-//@   requires len(b) <= 64
+//@   option bevalbound=32
+//@   option timeout=120
+//@   requires len(b) <= 32
+// one case per length (each a linear-arithmetic goal the solver decides at once; the general goal is decided too,
+// but in 3 to 120 s depending on the solver's luck, which is too unstable to rely on)
+//@   casesplit len(b) == 0 | len(b) == 1 | len(b) == 2 | len(b) == 3 | len(b) == 4 | len(b) == 5 | len(b) == 6 | len(b) == 7 | len(b) == 8 | len(b) == 9 | len(b) == 10 | len(b) == 11 | len(b) == 12 | len(b) == 13 | len(b) == 14 | len(b) == 15 | len(b) == 16 | len(b) == 17 | len(b) == 18 | len(b) == 19 | len(b) == 20 | len(b) == 21 | len(b) == 22 | len(b) == 23 | len(b) == 24 | len(b) == 25 | len(b) == 26 | len(b) == 27 | len(b) == 28 | len(b) == 29 | len(b) == 30 | len(b) == 31 | len(b) == 32
 //@   nofail
 //@   modifies mem(b)
 //@   let u = old(beval(b))
